@@ -101,7 +101,7 @@ def worker_obligations(pid, mir_text, info, add, violations, inconclusive, only_
         info["worker_closures"][name] = winfo
         info["functions_encoded"].append(f"checker::{name} worker closure {winfo['function'].split('::')[-1]} (MIR sha256 {winfo['mir_sha256']}, {winfo['blocks']} basic blocks, {winfo['round_paths']} paths per round)")
         for o in res:
-            if only_observation and "observes a closed market" not in o["obligation"]:
+            if only_observation and "on a closed market the round" not in o["obligation"] and "the worker leaves only after" not in o["obligation"]:
                 continue
             add(o["obligation"], o["result"], **({"witness": o["witness"]} if o.get("witness") else {}))
             if o["result"] == "sat":
@@ -159,11 +159,20 @@ def run(pid, tier, seed, replay_path=None):
             # (threads, schedule length, spurious wake-ups).  Measured: T=2 K=14 444 s, T=3 K=10 687 s; with spurious
             # wake-ups T=2 K=14 gave `unknown` after 2314 s, so those variants run at the quick bounds.
             cfgs = [(2, 10, False), (3, 8, False)] if tier == "quick" else [(2, 14, False), (2, 10, True), (3, 10, False), (3, 8, True)]
+            # the worker closures first: the BMC's client automaton is only meaningful if they conform
+            worker_obligations(pid, mir_text, info, add, violations, inconclusive)
             wcl = workerloop.find_worker_closures(mir_text)
-            forms = {k: workerloop.share_form(k, wcl[k]) for k in ("bfs", "dfs") if k in wcl}
-            if len(forms) != 2 or len(set(forms.values())) != 1:
-                raise Unsupported(f"worker closures of bfs.rs and dfs.rs not found or sharing work differently: {forms}")
-            share = forms["bfs"]
+            try:
+                forms = {k: workerloop.share_form(k, wcl[k]) for k in ("bfs", "dfs") if k in wcl}
+                if len(forms) != 2 or len(set(forms.values())) != 1:
+                    raise Unsupported(f"worker closures of bfs.rs and dfs.rs not found or sharing work differently: {forms}")
+            except Unsupported:
+                if not violations:
+                    raise
+                forms = None
+                cfgs = []
+                info.setdefault("notes", []).append("BMC skipped: the worker closures violate their obligations and share work under a rule the client automaton does not know")
+            share = forms["bfs"] if forms else "guarded"
             info["client_automaton_share_rule"] = {"derived_from_worker_MIR": forms}
             for T, K, spurious in cfgs:
                 for _once in (0,):
@@ -222,7 +231,6 @@ def run(pid, tier, seed, replay_path=None):
                     violations.append({"property": "C05", "obligation": o["obligation"], "static": True, "witness": o.get("witness")})
                 elif o["result"] != "unsat":
                     inconclusive.append(o["obligation"] + ": " + o["result"])
-            worker_obligations(pid, mir_text, info, add, violations, inconclusive)
         elif pid == "C12":
             worker_obligations(pid, mir_text, info, add, violations, inconclusive, only_observation=True)
             outs, n_paths = checks.static_timeout(bm)
@@ -422,30 +430,116 @@ WORKER_TEST = r'''
 use stateright::{Checker, Model, Property};
 use std::time::{Duration, Instant};
 
-/// WIDTH independent chains: the frontier keeps WIDTH states for ever (unbounded model).
-struct Wide(u64);
+/// WIDTH independent chains: the frontier keeps WIDTH states for ever (unbounded model).  With
+/// `comb`, every chain state also has a dead-end successor (listed first), so that a depth-first
+/// worker's stack holds the chain head on top of a growing pile of dead ends.
+#[derive(Clone, Copy)]
+struct Wide { width: u64, comb: bool }
 impl Model for Wide {
-    type State = u64;
-    type Action = ();
-    fn init_states(&self) -> Vec<u64> { (0..self.0).collect() }
-    fn actions(&self, _s: &u64, a: &mut Vec<()>) { a.push(()); }
-    fn next_state(&self, s: &u64, _a: ()) -> Option<u64> { Some(s + self.0) }
+    type State = (bool, u64);
+    type Action = bool;
+    fn init_states(&self) -> Vec<(bool, u64)> { (0..self.width).map(|i| (false, i)).collect() }
+    fn actions(&self, s: &(bool, u64), a: &mut Vec<bool>) {
+        if !s.0 {
+            if self.comb { a.push(true); }
+            a.push(false);
+        }
+    }
+    fn next_state(&self, s: &(bool, u64), dead: bool) -> Option<(bool, u64)> {
+        if dead { Some((true, s.1)) } else { Some((false, s.1 + self.width)) }
+    }
     fn properties(&self) -> Vec<Property<Self>> { vec![Property::always("true", |_, _| true)] }
 }
 
-#[test]
-fn verif_busy_worker_observes_timeout() {
-    let (threads, width, dfs): (usize, u64, bool) = (@THREADS@, @WIDTH@, @DFS@);
+fn stops(threads: usize, width: u64, comb: bool, dfs: bool) -> bool {
     let (tx, rx) = std::sync::mpsc::channel();
     std::thread::spawn(move || {
         let t0 = Instant::now();
-        let b = Wide(width).checker().threads(threads).timeout(Duration::from_millis(300));
+        let b = Wide { width, comb }.checker().threads(threads).timeout(Duration::from_millis(300));
         let n = if dfs { b.spawn_dfs().join().state_count() } else { b.spawn_bfs().join().state_count() };
         let _ = tx.send((t0.elapsed(), n));
     });
     match rx.recv_timeout(Duration::from_millis(300 + 1000 + 4000)) {
-        Ok((d, n)) => println!("stopped after {:?} with {} states", d, n),
-        Err(_) => panic!("VIOLATION busy worker never observes the timeout: threads={} frontier={} dfs={} still running 4 s after a 300 ms timeout (+1 s poll)", threads, width, dfs),
+        Ok((d, n)) => { println!("threads={} frontier={} comb={} dfs={}: stopped after {:?} with {} states", threads, width, comb, dfs, d, n); true }
+        Err(_) => false,
+    }
+}
+
+#[test]
+fn verif_busy_worker_observes_timeout() {
+    // the solver's witness first, then the same situation with every worker busy on a narrow queue
+    let dfs = @DFS@;
+    let mut configs: Vec<(usize, u64)> = vec![(@THREADS@, @WIDTH@), (1, 1), (2, 1), (2, 2), (3, 3), (1, 3)];
+    configs.dedup();
+    for comb in [false, true] {
+        for &(threads, width) in &configs {
+            assert!(stops(threads, width, comb, dfs), "VIOLATION busy worker never observes the timeout: threads={} frontier={} comb={} dfs={} still running 4 s after a 300 ms timeout (+1 s poll)", threads, width, comb, dfs);
+        }
+    }
+}
+'''
+
+WORKER_EXIT_TEST = r'''
+use stateright::{Checker, Model, Property};
+
+/// 3000 states: a 3-wide ladder, finite.
+struct Ladder;
+impl Model for Ladder {
+    type State = u32;
+    type Action = u32;
+    fn init_states(&self) -> Vec<u32> { vec![0, 1, 2] }
+    fn actions(&self, _s: &u32, a: &mut Vec<u32>) { a.push(3); a.push(4); }
+    fn next_state(&self, s: &u32, a: u32) -> Option<u32> { if *s + a < 3000 { Some(*s + a) } else { None } }
+    fn properties(&self) -> Vec<Property<Self>> {
+        vec![Property::always("small", |_, s| *s < 3000), Property::sometimes("seven", |_, s| *s == 7)]
+    }
+}
+
+/// Root -> 3200 slow C states -> one D state each (depths 1, 2, 3).
+struct Fan;
+impl Model for Fan {
+    type State = (u8, u32);
+    type Action = u32;
+    fn init_states(&self) -> Vec<(u8, u32)> { vec![(0, 0)] }
+    fn actions(&self, s: &(u8, u32), a: &mut Vec<u32>) {
+        match s.0 { 0 => a.extend(0..3200), 1 => a.push(0), _ => {} }
+    }
+    fn next_state(&self, s: &(u8, u32), a: u32) -> Option<(u8, u32)> {
+        match s.0 {
+            0 => Some((1, a)),
+            1 => { let t = std::time::Instant::now(); while t.elapsed() < std::time::Duration::from_micros(50) {} Some((2, s.1)) }
+            _ => None,
+        }
+    }
+    fn properties(&self) -> Vec<Property<Self>> { vec![Property::always("true", |_, _| true)] }
+}
+
+#[test]
+fn verif_worker_leaves_only_for_a_stop_reason() {
+    // a depth limit is not a stop reason for a worker: states nearer than the limit that another
+    // worker still holds must be evaluated
+    let want = Fan.checker().target_max_depth(3).spawn_bfs().join().unique_state_count();
+    for round in 0..3 {
+        for threads in [2usize, 3] {
+            let got = Fan.checker().threads(threads).target_max_depth(3).spawn_bfs().join().unique_state_count();
+            assert!(got == want, "VIOLATION worker left without a stop reason: BFS threads={} target_max_depth(3) round {} reached {} of {} states", threads, round, got, want);
+            let got = Fan.checker().threads(threads).target_max_depth(3).spawn_dfs().join().unique_state_count();
+            assert!(got == want, "VIOLATION worker left without a stop reason: DFS threads={} target_max_depth(3) round {} reached {} of {} states", threads, round, got, want);
+        }
+    }
+    let total = Ladder.checker().spawn_bfs().join().unique_state_count();
+    for threads in [1usize, 2, 3] {
+        for dfs in [false, true] {
+            // no target, default finish condition (all properties): "small" is never discovered, so
+            // nothing allows an early stop: the whole space must be visited
+            let b = Ladder.checker().threads(threads);
+            let c = if dfs { b.spawn_dfs().join().unique_state_count() } else { b.spawn_bfs().join().unique_state_count() };
+            assert!(c == total, "VIOLATION worker left without a stop reason: threads={} dfs={} visited {} of {} states", threads, dfs, c, total);
+            // with a target the check must not stop before the target is reached
+            let b = Ladder.checker().threads(threads).target_state_count(1500);
+            let n = if dfs { b.spawn_dfs().join().state_count() } else { b.spawn_bfs().join().state_count() };
+            assert!(n >= 1500, "VIOLATION worker left without a stop reason: threads={} dfs={} generated {} states, target 1500", threads, dfs, n);
+        }
     }
 }
 '''
@@ -497,7 +591,7 @@ def replay_static(d, pid, v):
         return _native_test(d, STATIC_TEST_LATE, "verif_timeout_closes_after_deadline", "VIOLATION market still open")
     if pid == "C12" and "an unexpired timeout leaves the market untouched" in v["obligation"]:
         return _native_test(d, STATIC_TEST_UNTOUCHED, "verif_unexpired_timeout_leaves_market_untouched", "VIOLATION market altered")
-    if "observes a closed market" in v["obligation"]:
+    if "on a closed market the round" in v["obligation"]:
         w = v.get("witness") or {}
         threads, width = int(w.get("threads", 1)), max([1] + [int(x) for x in w.get("queue_after_block", [])])
         if not (1 <= threads <= 8 and 1 <= width <= 64):
@@ -522,6 +616,28 @@ def replay_static(d, pid, v):
             else:
                 return None, r.stdout[-1500:]
             return _WORKER_REPLAYS[code]
+        finally:
+            os.remove(tp)
+    if "the worker leaves only after" in v["obligation"]:
+        sr = os.path.join(d, "pristine")
+        os.makedirs(os.path.join(sr, "tests"), exist_ok=True)
+        tp = os.path.join(sr, "tests", "verif_worker_exit.rs")
+        v["replay_test"] = WORKER_EXIT_TEST
+        if WORKER_EXIT_TEST in _WORKER_REPLAYS:
+            return _WORKER_REPLAYS[WORKER_EXIT_TEST]
+        open(tp, "w").write(WORKER_EXIT_TEST)
+        try:
+            env = dict(os.environ)
+            env["CARGO_NET_OFFLINE"] = "true"
+            env["CARGO_TARGET_DIR"] = os.path.join(CACHE_ROOT, "target-mir-native")
+            r = subprocess.run(["cargo", "test", "--offline", "--test", "verif_worker_exit"], cwd=sr, env=env, stdout=subprocess.PIPE, stderr=subprocess.STDOUT, text=True, timeout=1500)
+            if "VIOLATION worker left without a stop reason" in r.stdout:
+                _WORKER_REPLAYS[WORKER_EXIT_TEST] = (True, r.stdout[-1500:])
+            elif re.search(r"test result: ok\. 1 passed", r.stdout):
+                _WORKER_REPLAYS[WORKER_EXIT_TEST] = (False, r.stdout[-800:])
+            else:
+                return None, r.stdout[-1500:]
+            return _WORKER_REPLAYS[WORKER_EXIT_TEST]
         finally:
             os.remove(tp)
     if pid == "C12" and "wakes every waiter" in v["obligation"]:
@@ -561,7 +677,7 @@ EXPLAIN = {
             "an iteration that sees closing_time < now closes the market and exits (dropping its broker clone, whose Drop wakes all waiters); before that it "
             "leaves the market untouched and goes back to sleep for one period - so the market is closed at most one sleep period plus one critical section "
             "after expiry, for every thread count; it never sleeps while holding the market mutex (an unexpired timeout takes no progress away from the "
-            "workers); once closed, every worker's NEXT broker call (pop/split_and_push/push) observes it and hands out nothing. That a busy worker makes such a call is decided on the MIR of the bfs.rs/dfs.rs worker closures, executed symbolically one round at a time (queue lengths, thread count, block outcome, finish verdict symbolic): a round without a broker call that observes the market must end with an empty queue (so the next round starts with pop) - otherwise rounds that never look at the market can follow each other for ever and the timeout is ignored."),
+            "workers); once closed, every worker's NEXT broker call (pop/split_and_push/push) observes it and hands out nothing. That a busy worker makes such a call is decided on the MIR of the bfs.rs/dfs.rs worker closures, executed symbolically one round at a time (queue lengths, thread count, block outcome, finish verdict symbolic): a round without a broker call that observes the market must end with an empty queue (so the next round starts with pop) - otherwise rounds that never look at the market can follow each other for ever and the timeout is ignored. Finish-condition and target wiring of those closures: a worker leaves its loop only after pop returned an empty batch, after finish_when.matches(..) returned true, or when target_state_count <= state_count (the verdict of matches itself and the counter are arbitrary values here)."),
 }
 BOUNDS = {
     "C05": {"quick": {"threads": "2 (K=10), 3 (K=8)", "jobs_per_queue": "<=6", "generated_per_block": "<=2", "market_batches": "<=4", "invariant": "inductive: any schedule length, T=2 and T=3"},
@@ -570,7 +686,7 @@ BOUNDS = {
 }
 OUTSIDE = {
     "C05": ["equality of the evaluated state set / verdicts with the single-threaded run (needs check_block + DashMap arbitration; see C01)", "more than 3 worker threads, longer schedules for the BMC obligations", "memory-model effects (all shared state is mutex-protected)", "OS scheduling fairness; the timeout stop reason (see C12)", "the on_demand.rs worker closure (not encoded)"],
-    "C12": ["the on_demand.rs worker closure (same sharing code, blocks on a control channel; not encoded - OnDemandChecker::join cannot return anyway)", "the length of one block of work (check_block evaluates up to 1500 states between two broker calls)", "HasDiscoveries::matches / finish_when, target_state_count, target_max_depth wiring in the worker closures and BFS depth completeness (checker loops)", "simulation seeding (RNG + HashSet) and the simulation checker's own shutdown flag", "wall-clock accuracy of real sleeps"],
+    "C12": ["the on_demand.rs worker closure (same sharing code, blocks on a control channel; not encoded - OnDemandChecker::join cannot return anyway)", "the length of one block of work (check_block evaluates up to 1500 states between two broker calls)", "what HasDiscoveries::matches computes (CBMC out of memory, measured) and which discoveries/properties it is handed; target_max_depth and BFS depth completeness (inside check_block); the state counter's accuracy", "simulation seeding (RNG + HashSet) and the simulation checker's own shutdown flag", "wall-clock accuracy of real sleeps"],
 }
 ASSUME = [
     "crate `log` replaced by a model whose macros expand to nothing",
